@@ -467,6 +467,19 @@ class Duration(timedelta):
 
         return NotImplemented
 
+    def __reduce__(self) -> tuple[type[Self], tuple[int, ...]]:
+        return self.__class__, (
+            self._days,
+            self._seconds,
+            self._microseconds,
+            0,
+            0,
+            0,
+            0,
+            self._years,
+            self._months,
+        )
+
     def __deepcopy__(self, _: dict[int, Self]) -> Self:
         return self.__class__(
             days=self.remaining_days,
@@ -529,6 +542,8 @@ class AbsoluteDuration(Duration):
         self._years = abs(years)
 
         return self
+
+    __reduce__ = timedelta.__reduce__  # type: ignore[assignment]
 
     def total_seconds(self) -> float:
         return abs(self._total)
